@@ -499,16 +499,22 @@ def shrink_case(pid, mod, case, rundir, failing):
         if time.time() > t_end:
             break
         cands, total = [], 0
-        for c in cand_fn(cur):
-            if c == cur:
-                continue
-            cands.append(c)
-            total += len(c)
-            if len(cands) >= 400 or total > 600000:
-                break
+        try:
+            for c in cand_fn(cur):
+                if c == cur:
+                    continue
+                cands.append(c)
+                total += len(c)
+                if len(cands) >= 400 or total > 600000:
+                    break
+        except Exception:   # noqa -- a candidate generator that does not know this kind of case: report it unshrunk
+            cands = []
         if not cands:
             break
-        res = run_both(pid, mod, cands, rundir, tag="shrink")
+        try:
+            res = run_both(pid, mod, cands, rundir, tag="shrink")
+        except Exception:   # noqa -- a malformed candidate must not turn a finding into a crash of the check
+            break
         nxt = None
         for r in res:
             if failing(r):
